@@ -2,6 +2,7 @@
 (trace level, all targets) produced while the TLC-generated scenarios of the other properties are
 replayed, for the canaries planted in the secret-bearing fields."""
 from vlib import *
+import os
 import re
 
 
@@ -26,12 +27,43 @@ def collect(ctx, jobs):
         if l["target"].startswith("trusttunnel"):
             sig = "leak:%s:%s:%s" % (l["tag"], l["target"], norm(l["line"]))
         else:
-            sig = "leak3p:%s:%s" % (l["tag"], l["target"])
+            # a third-party statement is identified by the field and the target; the scenario class
+            # the Secrets.tla job appends to its tags ("sni-creds[multi;hs-timeout]") is not part of it
+            sig = "leak3p:%s:%s" % (l["tag"].split("[")[0], l["target"])
         if sig not in seen:
             seen[sig] = l
             ctx.violations.append({"sig": sig, "what": "a planted secret (%s) appears in a %s log record of %s: %s" % (l["tag"], l["level"], l["target"], l["line"][:160]),
                                    "detail": l, "job": l.get("job")})
     return seen
+
+
+CONN_CLASSES = ("pre-rules", "denied", "demux-reject", "hs-timeout", "hs-failed", "established")
+
+
+def secrets_job(ctx):
+    """Secrets.tla: TLC checks the log discipline on every scenario of MCSecrets and prints them; the
+    harness runs each against a real listening endpoint with the scenario's secrets planted."""
+    ctx.build("c20")
+    s = ctx.tlc("MCSecrets", "MCSecrets.thorough.cfg" if ctx.thorough else "MCSecrets.quick.cfg", workers=4, timeout=900,
+                require_actions=("Peek", "Sni", "Rules", "Demux", "TlsAccept", "Channel", "Request", "Ping", "Speed", "RProxy", "Auth", "Promote"))
+    ctx.spec_must_hold(s)
+    r = ctx.harness("c20", ["--vectors", s["out"]], env={"VERIF_ROOT": ROOT}, timeout=1500)
+    reached, unreached = {}, {}
+    for k, n in r.get("counters", {}).items():
+        kind, _, cls = k.partition(":")
+        if kind in ("reached", "unreached"):
+            d = reached if kind == "reached" else unreached
+            c = cls.split("|")[0]
+            d[c] = d.get(c, 0) + n
+    # a path nobody walked says nothing about its log: a run in which a whole class of connection
+    # ends was never reached is not a check of C20 (tool level, not a violation of the property)
+    for c in CONN_CLASSES:
+        if reached.get(c, 0) == 0:
+            raise ToolError("Secrets.tla scenarios: no connection ended as '%s' (unreached: %s); see %s" % (c, unreached, os.path.join(ctx.work, "c20.result.json")))
+    if unreached:
+        ctx.notes.append("C20 scenarios that did not end as Secrets.tla predicts (not searched as that path): %s" % unreached)
+    return {"scenarios": r["evaluations"], "reached": reached, "unreached": unreached, "model_states": s["distinct"],
+            "planted_values": r.get("counters", {}).get("planted_values", 0), "samples": r.get("samples", [])[:2]}
 
 
 def run(ctx):
@@ -49,16 +81,21 @@ def run(ctx):
             ctx.violations = []
         except ModuleNotFoundError:
             pass
+    sec = secrets_job(ctx)
+    ctx.violations = []
     seen = collect(ctx, None)
     records = sum(r.get("log_records", 0) for r in ctx.harness_runs)
     scen = sum(r.get("evaluations", 0) for r in ctx.harness_runs)
     return ctx.finish("exploration", {
         "evaluations": scen, "distinct_nontrivial": cov["distinct_nontrivial"],
         "log_records_searched": records,
+        "secrets_scenarios": {k: sec[k] for k in ("scenarios", "reached", "unreached", "model_states", "planted_values")},
+        "traces_validated_against_impl": sec["scenarios"] - sum(sec["unreached"].values()),
         "leaking_statements": len(seen),
-        "rule": "every scenario TLC generates for Tunnel.tla (all request kinds, all Proxy-Authorization classes, every failure outcome, SNI-credential connections) is replayed with unique canaries in Proxy-Authorization, the SNI credentials label and the configured passwords; every log record at trace level is searched for the canaries verbatim, base64-encoded and base64-decoded. Non-trivial = scenarios that end in a rejection or failure path.",
+        "rule": "Secrets.tla / MCSecrets: every scenario of {configuration: main host with one / several labels, allowed_sni, QUIC on/off} x {name in the SNI: main host, <credentials>.<main host>, allowed name, ping host, unknown, none} x {ALPN} x {source allowed / denied by the rules} x {handshake completed / stalled until the timeout / aborted / garbage / hello never completed} x {verdict on the credentials label} x {request kind x Proxy-Authorization 0..2 values of every class mix x Authorization 0..2 x Cookie none / one / several pairs / several fields x spelling of the names x ping marker} x {HTTP/1.1, HTTP/2} is run against a real listening endpoint with a unique canary per secret atom of the model; the end of each connection is taken from hook events and compared with the model. Besides: every scenario TLC generates for Tunnel.tla (all request kinds, all Proxy-Authorization classes, every failure outcome, SNI-credential connections) is replayed with unique canaries in Proxy-Authorization, the SNI credentials label and the configured passwords; every log record at trace level is searched for the canaries verbatim, base64-encoded and base64-decoded. Non-trivial = scenarios that end in a rejection or failure path.",
         "samples": cov["samples"][:2],
     }, assumptions=[
         "the predicate is a substring search over formatted log records; the specification contributes the enumeration of paths (every action of Tunnel.tla including every failure exit is replayed)",
+        "Secrets.tla scenarios: a scenario whose connection did not end as the model predicts is not counted as a search of that path (listed as unreached); the credentials label is a secret only in front of a configured main host (as `select` defines it), a first label in front of any other name is not planted",
         "channels covered: tunnel channel over HTTP/1.1 and HTTP/2 (ping / speedtest / reverse proxy / TLS listener scenarios are added by their own jobs when present)",
     ])
